@@ -296,6 +296,9 @@ RAW_BYTES = [b"#", b":", b";", b"A", b"b", b"\n", b"\r\n", b" ", b"\x81", b"\x8d
              b"\x83\x5c", b"\x81\x40", b"\xc3\xa9", b"\xe3\x83\x9f", b"\xff", b"\xfe", b"\xa1\xfe", b"\x8d\xfe", b"\xef\xbb\xbf", b"\x80", b"\xc3"]
 
 
+DANGLING_TAILS = [b"\xe9", b"\xc3", b"\xe3\x83", b"\xf0\x9f\x98", b"\x83", b"\xb0", b"\xe0", b"\x95", b"caf\xe9", b"\x8f"]
+
+
 @st.composite
 def s_encs(draw):
     mode = draw(st.integers(0, 9))
@@ -317,11 +320,21 @@ def s_encs(draw):
 @st.composite
 def s_case(draw):
     suffix = draw(st.sampled_from([".sm", ".ssc"]))
-    kind = "raw" if draw(st.integers(0, 9)) == 0 else "doc"
+    sel = draw(st.integers(0, 11))
+    kind = "raw" if sel == 0 else "dangling" if sel == 1 else "doc"
     if kind == "raw":
-        data = b"".join(draw(st.lists(st.sampled_from(RAW_BYTES), min_size=1, max_size=14))) + b"\n"
+        data = b"".join(draw(st.lists(st.sampled_from(RAW_BYTES), min_size=1, max_size=14))) + draw(st.sampled_from([b"\n", b"\n", b""]))
         strict = False
         enc_used = None
+    elif kind == "dangling":
+        # a well-formed body whose very last bytes are a multi-byte sequence cut short by the end of the file under an
+        # earlier-tried encoding (a lead byte without its trail), while a later encoding may decode the whole file
+        enc_used = draw(st.sampled_from(["cp1252", "cp1252", "cp932", "cp949"]))
+        strict = True
+        text = draw(ff.s_document(enc_used, suffix, keyonly=False, stray=False, max_props=2, max_charts=0))
+        tail = draw(st.sampled_from(DANGLING_TAILS))
+        data = text.encode(enc_used) + (b"" if text.endswith(("\n", "\r")) or not text else b"\n") + b"#LASTKEY:x" + tail
+        kind = "raw"
     else:
         enc_used = draw(st.sampled_from(ff.MAIN_ENCODINGS))
         strict = draw(st.integers(0, 4)) != 0
